@@ -1491,6 +1491,16 @@ func (p *Parser) attachSiblingsAsArgs(parentObj, targetObj *Object, numArgs uint
 	for siblingIndex := targetObj.nextSiblingIndex; numArgs > 0; numArgs-- {
 		if siblingIndex == InvalidIndex && useParentSiblings {
 			siblingIndex = parentObj.nextSiblingIndex
+
+			// An operand nested several objects deep, as in RefOf(DerefOf(X)),
+			// finds its args after the closest enclosing object that has a
+			// following sibling; the search never leaves the statement list.
+			for anc := parentObj; siblingIndex == InvalidIndex && anc.opcode != pOpIntScopeBlock && anc.parentIndex != InvalidIndex; {
+				if anc = p.objTree.ObjectAt(anc.parentIndex); anc.opcode == pOpIntScopeBlock {
+					break
+				}
+				siblingIndex = anc.nextSiblingIndex
+			}
 		}
 
 		if siblingIndex == InvalidIndex {
